@@ -4499,8 +4499,13 @@ class TLSConnection(TLSRecordLayer):
                                  settings.pskConfigs if
                                  i[0] in client_identities]
                     if psks_prfs:
-                        ciphers = CipherSuite.filter_for_prfs(ciphers,
-                                                              psks_prfs)
+                        psk_ciphers = CipherSuite.filter_for_prfs(ciphers,
+                                                                  psks_prfs)
+                        # it's only a preference: when the client can't use
+                        # any of them, fall back to a certificate handshake
+                        if any(i in client_hello.cipher_suites
+                               for i in psk_ciphers):
+                            ciphers = psk_ciphers
                 for cipher in ciphers:
                     # select first mutually supported
                     if cipher in client_hello.cipher_suites:
